@@ -59,6 +59,11 @@ def _gen(rng, cmd, n, dts):
         for i in range(len(b["data"])):
             if rng.random() < 0.3:
                 b["data"][i] = 0 if b["dtype"].startswith("int") else 0.0
+    if cmd == "ADividedByB" and ins[1]["dtype"] == "float64" and rng.random() < 0.3:
+        b = ins[1]
+        for i in range(len(b["data"])):
+            if rng.random() < 0.4:
+                b["data"][i] = rng.choice([3e-9, -4e-12, 1e-8, 7e-100, -1e-15])   # tiny, but not zero: the quotient is defined
     params = cmdgen.gen_params(rng, cmd, n)
     if "Weights" in params and rng.random() < 0.15:
         params["Weights"] = [rng.choice([1, -1, 2, -2.5]) for _ in range(n)]
